@@ -48,10 +48,10 @@ From QwtModel Require Import Words LeavesSB LeavesSBOk LeavesLine LeavesLineOk.
 
 (* ---- T3: the packed superblock counters REGENERATED from
    src/qvector/rs_qvector/rs_support_plain.rs (SuperblockPlain::get_rank / get_superblock_counter)
-   equal the hand model for every block index a caller can pass (callers pass block & 7; for
-   block_id >= 12 the source would shift a u128 by >= 128 bits, the hand model is laxer there). *)
+   equal the hand model for every argument of the parameter types (for block_id >= 12 the source shifts
+   a u128 by >= 128 bits: both sides are Fault Overflow there; callers pass block & 7). *)
 Theorem C05_source_sb_get_rank : forall ws symbol block_id,
-  Forall (fun w => w < 2 ^ 128) ws -> symbol < 256 -> block_id <= 11 ->
+  Forall (fun w => w < 2 ^ 128) ws -> symbol < 256 -> block_id < 2 ^ 64 ->
   g_sb_get_rank ws symbol block_id = sb_get_rank ws symbol block_id.
 Proof. exact g_sb_get_rank_ok. Qed.
 Print Assumptions C05_source_sb_get_rank.
